@@ -212,6 +212,8 @@ static int c_deflate(const struct cparams *p, uint8_t *in, size_t len, uint8_t *
 		isal_deflate_stateless_init(s);
 	else
 		isal_deflate_init(s);
+	s->avail_in = 0; /* the init functions leave next_in/avail_in alone and the object may be a recycled arena slot: the chunk loop below tests avail_in */
+	s->next_in = NULL;
 	s->level = p->level;
 	s->level_buf = lb;
 	s->level_buf_size = lbs;
